@@ -317,6 +317,8 @@ enum Script {
 
 #[derive(Clone)]
 struct HistParams {
+    /// index of the history inside its configuration (part of the RNG path)
+    index: u64,
     max_ops: usize,
     max_rows: usize,
     huge: bool,
@@ -410,6 +412,7 @@ impl<'a> Hist<'a> {
             signature,
             json!({
                 "config": self.cfg.to_json(),
+                "history_index": self.p.index,
                 "kind": sig,
                 "what": what,
                 "detail": extra,
@@ -617,7 +620,8 @@ impl<'a> Hist<'a> {
         let len_before = self.keys.len();
         let n = first.unwrap_or(len_before);
         let kind: &'static str = if first.is_some() { "emit-first" } else { "emit-all" };
-        if first.is_some() && self.collision_chains() >= 2 {
+        let chains = if first.is_some() { self.collision_chains() } else { 0 };
+        if first.is_some() && chains >= 2 {
             if self.avoid(Hazard::PartialEmitWithCollisionChains) {
                 self.stats.hazards_avoided += 1;
                 return Ok(());
@@ -625,7 +629,7 @@ impl<'a> Hist<'a> {
             self.exercise(Hazard::PartialEmitWithCollisionChains);
         }
         self.bump(kind);
-        self.trace.push(json!({"op": kind, "n": n, "len_before": len_before}));
+        self.trace.push(json!({"op": kind, "n": n, "len_before": len_before, "hash_collision_chains_among_live_keys": chains}));
         let to = match first {
             Some(n) => EmitTo::First(n),
             None => EmitTo::All,
@@ -811,7 +815,8 @@ impl<'a> Hist<'a> {
 
     /// number of 64-bit row hash values shared by two or more live keys. Only used to *name* the
     /// sequence being exercised, never for a verdict. Such collisions are structural (NULL cells
-    /// are skipped by the hash combine), hence independent of the seed used here.
+    /// are skipped by the hash combine); which columns can stand in for each other depends on the
+    /// seed, so the stores' own seed is used.
     fn collision_chains(&mut self) -> usize {
         if self.keys.len() < 4 || self.cfg.cols.len() < 2 {
             return 0;
@@ -823,7 +828,8 @@ impl<'a> Hist<'a> {
             })
             .collect();
         let mut hashes = vec![0u64; self.keys.len()];
-        if create_hashes(&arrays, &RandomState::with_seed(0), &mut hashes).is_err() {
+        // the seed `new_group_values` stores use (aggregates::AGGREGATION_HASH_SEED)
+        if create_hashes(&arrays, &RandomState::with_seed(15395726432021054657), &mut hashes).is_err() {
             return 0;
         }
         let mut by: HashMap<u64, usize> = HashMap::new();
@@ -1066,8 +1072,14 @@ fn run(args: &Args) -> i32 {
     let selftest = args.opt_u64("selftest", 0);
     let only = args.opt_str("only").map(|s| s.to_string());
     let cfgs: Vec<Cfg> = configs(miri).into_iter().filter(|c| only.as_ref().map(|o| c.label.contains(o.as_str())).unwrap_or(true)).collect();
-    let per_cfg = if miri { args.bound("hist", 6, 6) } else { args.bound("hist", 36, 1800) };
-    let base = HistParams { max_ops: if miri { 8 } else { 30 }, max_rows: if miri { 6 } else { 64 }, huge: false, selftest, script: Script::Random, bad: vec![], avoid: vec![] };
+    let per_cfg = if miri {
+        args.bound("hist", 6, 6)
+    } else if args.stage == "memcheck" {
+        args.bound("hist", 20, 60) // valgrind: the same workload, much smaller
+    } else {
+        args.bound("hist", 400, 20_000)
+    };
+    let base = HistParams { index: 0, max_ops: if miri { 8 } else { 30 }, max_rows: if miri { 6 } else { 64 }, huge: false, selftest, script: Script::Random, bad: vec![], avoid: vec![] };
     let workers = if cfg!(miri) { 1 } else { args.workers };
     let seed = args.seed;
     let stage_tag = if miri { 1u64 } else { 0 };
@@ -1083,7 +1095,9 @@ fn run(args: &Args) -> i32 {
             let huge = case.p.huge;
             let path = [13, stage_tag, fp_str(&cfg.label), case.index];
             // scripted histories do not depend on the seed
-            let out = run_history(cfg, if script == Script::Random { seed } else { 0 }, &path, case.p);
+            let mut p = case.p;
+            p.index = case.index;
+            let out = run_history(cfg, if script == Script::Random { seed } else { 0 }, &path, p);
             let (stats, verdict) = match out {
                 Outcome::Done(s) => (s, None),
                 Outcome::Skip(reason, s) => {
@@ -1221,6 +1235,9 @@ fn run(args: &Args) -> i32 {
                 }
             }
         }
+    }
+    if let Some(h) = args.opt_str("hist_only").and_then(|s| s.parse::<u64>().ok()) {
+        cases.retain(|c| c.index == h);
     }
     exec(cases);
 
